@@ -119,6 +119,13 @@ func runAnalysisTie(r *rep.Report, thorough bool, opt synth.Options, parts []str
 			}
 			r.Case(map[string]any{"case": a.Case.ID, "features": a.Case.Feat, "src_defs.go": a.Case.Sources()["defs.go"]}, nontrivial)
 			r.Hist("analysis:" + a.Out.Class)
+			if a.Out.Class == "fatal" {
+				if inPart["graph"] {
+					r.Fail(rep.Failure{Signature: prefix + ":analysis-does-not-terminate", What: "the analysis kills the process on this program: " + a.Out.Msg,
+						Input: map[string]any{"case": a.Case.ID, "sources": a.Case.Sources()}, Observed: a.Out.Msg})
+				}
+				continue
+			}
 			for _, mm := range compareAnalysis(a, m) {
 				if !inPart[mm.Part] {
 					r.Hist("other-part-mismatch:" + mm.Part)
